@@ -82,8 +82,8 @@ def step (st : Option S) (line : String) : Option S × String :=
       let (s', r) := query dg s id (adm.getD false)
       -- cross-check: the implementation consulted `should_cache` iff the model reaches it
       (some s', match r with
-        | none => "none"
-        | some (v, t) => s!"some {showTier t} {showNatList v}")
+        | none => "none adm=0"
+        | some (v, t) => s!"some {showTier t} {showNatList v} adm={if t == .cache then 0 else 1}")
     | none, _ => (st, "bad-op")
   | "doc_meta", some s =>
     match natField? fs "id" with
@@ -123,6 +123,7 @@ def step (st : Option S) (line : String) : Option S × String :=
           natListField? fs "dig" with
     | some id, some v, some m, some ver, some dv => (some (pokeHot s id v m ⟨ver, dg dv⟩), "ok")
     | _, _, _, _, _ => (st, "bad-op")
+  | "train", some _ => (st, "ok")
   | "sizes", some s =>
     (st, s!"l1a={s.l1a.size} hot={s.hot.length} l1a_keys={showNatList (sortedKeys (s.l1a.a.entries ++ (if s.l1a.kind == .ab then s.l1a.b.entries else [])))} hot_keys={showNatList (sortedKeys s.hot)}")
   | "census", some s =>
